@@ -226,6 +226,10 @@ KERNELS = [
     dict(name='carryComplete', file='torf/_stream.py', func='TorrentFileStream._iter_from_file_handle',
          pick=('if-test-containing', 'len(piece) == piece_size'), atoms={'len(piece)': 'carried'},
          params=[('carried', 'Int'), ('piece_size', 'Int')], ret='Bool'),
+    # --- Collector._collect (C03): which results are stored as piece hashes
+    dict(name='collectStores', file='torf/_generate.py', func='Collector._collect', pick=('if-test-guarding', '_hashes_unsorted.append'),
+         atoms={'exceptions': 'has_exc', 'piece_hash': 'has_hash'},
+         params=[('has_exc', 'Bool'), ('has_hash', 'Bool')], ret='Bool'),
     # --- the parameter tables of magnet URIs (C13): literal tuples of names; an element that is itself a tuple
     #     contributes its first component
     dict(name='magnetKnownParameters', kind='strings', file='torf/_magnet.py', func='Magnet',
